@@ -225,7 +225,7 @@ func (g *rsGen) n() int                { g.seq++; return g.seq }
 func (g *rsGen) feature(f *rsFile, kind int) {
 	i := g.n()
 	t := f.tag()
-	nm := func(l string) string { return fmt.Sprintf("%s%s%d", l, t, i) }
+	nm := func(l string) string { return fmt.Sprintf("%s%sn%d", l, t, i) }
 	root := &rsNode{aug: -1}
 	switch kind % 7 {
 	case 0:
@@ -308,7 +308,7 @@ func (g *rsGen) newGroup(name string, k, layout int) *rsGroup {
 		j := g.n()
 		own := &rsNode{name: "own", kw: "container", aug: -1}
 		own.leaf("o")
-		own.add("container", fmt.Sprintf("oin%s%d", f.tag(), j)).leaf(fmt.Sprintf("ox%d", j))
+		own.add("container", fmt.Sprintf("oin%sn%d", f.tag(), j)).leaf(fmt.Sprintf("ox%d", j))
 		f.lines = append(f.lines, rsText(own))
 		f.own = append(f.own, own)
 		if g.chance(0.6) {
@@ -494,7 +494,7 @@ func (g *rsGen) newAug(w *rsFile, c rsCand, arg string, body []*rsNode, expect s
 // body: one or two nodes; below a choice only cases.
 func (g *rsGen) body(w *rsFile, t *rsNode) []*rsNode {
 	root := &rsNode{aug: -1}
-	nm := func() string { return fmt.Sprintf("a%s%d", w.tag(), g.n()) }
+	nm := func() string { return fmt.Sprintf("a%sn%d", w.tag(), g.n()) }
 	one := func() {
 		if t.kw == "choice" {
 			root.add("case", nm()).add("container", nm()).leaf(nm())
@@ -598,6 +598,21 @@ func C07RevSub(r *rand.Rand, j int) *C07RevSubSet {
 			}
 		}
 		cs := g.cands(w, rsAugmentable)
+		if i == 0 {
+			// the first augment comes from a text that reaches a node of a shared submodule of t
+			reaches := func(cs []rsCand) bool {
+				for _, c := range cs {
+					if rsInSharedSub(c) && c.tree.grp == g.groups[0] {
+						return true
+					}
+				}
+				return false
+			}
+			for tries := 0; tries < 12 && !reaches(cs); tries++ {
+				w = g.files[g.r.Intn(len(g.files))]
+				cs = g.cands(w, rsAugmentable)
+			}
+		}
 		want := rsInSharedSub
 		if last != nil && g.chance(0.45) {
 			// continue the chain: below what the previous augment made
@@ -624,7 +639,7 @@ func C07RevSub(r *rand.Rand, j int) *C07RevSubSet {
 				arg, _ := g.arg(w, c)
 				x := &rsNode{name: fmt.Sprintf("nosuch%d", g.n()), kw: "container", parent: c.n, aug: -1}
 				arg += "/" + g.prefixIn(w, c.n.nsOf(), c.imp) + ":" + x.name
-				lf := &rsNode{name: fmt.Sprintf("a%s%d", w.tag(), g.n()), kw: "leaf", aug: -1}
+				lf := &rsNode{name: fmt.Sprintf("a%sn%d", w.tag(), g.n()), kw: "leaf", aug: -1}
 				a := g.newAug(w, rsCand{c.imp, c.tree, x}, arg, []*rsNode{lf}, C07MissingT)
 				a.info.TargetPath, a.info.Origin = "", ""
 				clean = false
@@ -634,7 +649,7 @@ func C07RevSub(r *rand.Rand, j int) *C07RevSubSet {
 					continue
 				}
 				arg, _ := g.arg(w, c)
-				lf := &rsNode{name: fmt.Sprintf("a%s%d", w.tag(), g.n()), kw: "leaf", aug: -1}
+				lf := &rsNode{name: fmt.Sprintf("a%sn%d", w.tag(), g.n()), kw: "leaf", aug: -1}
 				g.newAug(w, c, arg, []*rsNode{lf}, C07NoChildren)
 				clean = false
 			case 2: // two augments add the same name to one node
